@@ -790,7 +790,7 @@ def desugar_combinators(raw, originals, stats=None, owner=None):
 
 
 
-def desugar_closure_calls(raw, originals, stats=None, owner=None):
+def desugar_closure_calls(raw, originals, stats=None, owner=None, upvar_closures=None):
     """`let due = |s| ..; if due(state) {..}`: a direct call of a closure written in this body is the closure's body"""
     changed = False
     blocks = raw["blocks"]
@@ -803,12 +803,20 @@ def desugar_closure_calls(raw, originals, stats=None, owner=None):
             continue
         q = originals.get(r)
         env_op = t["args"][0]
+        from_upvar = False
         if q is None or q.kind != "closure":
             # a generic helper that was spliced in calls its closure *parameter*: here the parameter is bound to a closure
             # written in this body -- follow the environment operand back to it
             q = None
+            from_upvar = False
             cur = env_op.get("p") if env_op.get("k") in ("move", "copy") else None
             by_ref = False
+            if upvar_closures and cur is not None and cur[0] == 1:
+                pr0 = [e for e in cur[1] if e != "*"]
+                if len(pr0) == 1 and pr0[0].startswith("f:") and int(pr0[0].split(":")[1]) in upvar_closures:
+                    q = upvar_closures[int(pr0[0].split(":")[1])]
+                    from_upvar = True
+                    cur = None
             for _ in range(8):
                 if cur is None or cur[1]:
                     break
@@ -821,6 +829,15 @@ def desugar_closure_calls(raw, originals, stats=None, owner=None):
                 if len(defs) != 1 or calls_:
                     break
                 rv = defs[0]["rv"]
+                if upvar_closures:
+                    # a captured callable of this (specialised) body: `move (_1.f:k)` / `&(_1.f:k)`
+                    pl_ = rv["op"]["p"] if rv["k"] == "use" and rv["op"].get("k") in ("move", "copy") else (rv["p"] if rv["k"] == "ref" else None)
+                    if pl_ is not None and pl_[0] == 1:
+                        pr_ = [e for e in pl_[1] if e != "*"]
+                        if len(pr_) == 1 and pr_[0].startswith("f:") and int(pr_[0].split(":")[1]) in upvar_closures:
+                            q = upvar_closures[int(pr_[0].split(":")[1])]
+                            from_upvar = True
+                            break
                 if rv["k"] == "use" and rv["op"].get("k") in ("move", "copy"):
                     cur = rv["op"]["p"]
                 elif rv["k"] == "ref" and not rv["p"][1]:
@@ -830,10 +847,12 @@ def desugar_closure_calls(raw, originals, stats=None, owner=None):
                     cur = [rv["p"][0], []]
                 else:
                     break
-            if q is None or q.kind != "closure" or q.arg_count < 1:
+            if isinstance(q, tuple):
+                pass
+            elif q is None or q.kind != "closure" or q.arg_count < 1:
                 continue
             # the body expects its environment as the closure's own kind says (&, &mut or by value)
-            env_ty = q.raw["locals"][1]["ty"]
+            env_ty = q.raw["locals"][1]["ty"] if not isinstance(q, tuple) else "&"
             if d == "std::ops::FnOnce::call_once" and env_ty.startswith("&"):
                 # called by value through FnOnce, body takes a reference: bind a reference to the moved closure value
                 tmpc = len(raw["locals"])
@@ -843,8 +862,22 @@ def desugar_closure_calls(raw, originals, stats=None, owner=None):
                 raw["locals"].append({"ty": "&<closure>", "mut": True, "user": False, "synthetic": True})
                 blocks[bi]["stmts"].append({"k": "assign", "l": t.get("l"), "lhs": [refc, []], "rv": {"k": "ref", "mut": env_ty.startswith("&mut"), "p": [tmpc, []]}})
                 env_op = {"k": "move", "p": [refc, []]}
-        # the closure must be one created in this very body (not a parameter / captured callback)
-        if not any(st["k"] == "assign" and st["rv"]["k"] == "agg" and st["rv"].get("kind") == "closure" and st["rv"].get("def") == q.id for b in blocks for st in b["stmts"]):
+        if isinstance(q, tuple) and q[0] == "fn":
+            # the captured callable is a function item: call it directly
+            targ = t["args"][1]
+            fargs = None
+            if targ.get("k") in ("move", "copy") and not targ["p"][1]:
+                defs = [st for b_ in blocks for st in b_["stmts"] if st["k"] == "assign" and st["lhs"] == [targ["p"][0], []]]
+                if len(defs) == 1 and defs[0]["rv"]["k"] == "agg" and defs[0]["rv"].get("kind") == "tuple":
+                    fargs = list(defs[0]["rv"]["ops"])
+            if fargs is None:
+                continue
+            blocks[bi]["term"] = {"l": t.get("l"), "k": "call", "synthetic": True, "func": q[1], "args": fargs, "dest": t["dest"], "target": t["target"]}
+            changed = True
+            continue
+        # the closure must be one created in this very body (not a parameter / captured callback) -- or the captured callable this
+        # specialised copy was made for
+        if not (upvar_closures and q.id in [c_.id for c_ in upvar_closures.values() if not isinstance(c_, tuple)]) and not any(st["k"] == "assign" and st["rv"]["k"] == "agg" and st["rv"].get("kind") == "closure" and st["rv"].get("def") == q.id for b in blocks for st in b["stmts"]):
             continue
         if len(blocks) + len(q.raw["blocks"]) + 4 > MAX_BLOCKS:
             continue
@@ -1108,3 +1141,60 @@ def inline_body(db, f, originals, stats=None, mode="cons"):
             if stats is not None:
                 stats.append((f.id, g.id))
     return raw if changed else None
+
+
+def specialise_captured_callables(db, nf_raw, owner_id, originals, new_fns, stats=None):
+    """A generic helper that receives the effect as a closure and runs it inside an async block / closure of its own
+    (`fn spawn_later(d, action: impl FnOnce()) { spawn(async move { sleep(d).await; action() }) }`): once the helper is spliced
+    into a caller that passes a closure written in place, the helper's inner body is created *there* with that closure as a
+    captured variable.  Give that creation site its own copy of the inner body with the closure's body spliced in at the call
+    of the captured variable.  Returns True if something changed."""
+    changed = False
+    counter = 0
+    for b in nf_raw["blocks"]:
+        for st in b["stmts"]:
+            if st["k"] != "assign" or st["rv"]["k"] != "agg" or st["rv"].get("kind") not in ("closure", "coroutine"):
+                continue
+            q = originals.get(st["rv"].get("def"))
+            if q is None or q.id.startswith(owner_id + "::"):
+                continue
+            ups = {}
+            for k, op in enumerate(st["rv"]["ops"]):
+                if op.get("k") == "const" and op.get("fn"):
+                    ups[k] = ("fn", op)
+                    continue
+                if op.get("k") in ("move", "copy") and not op["p"][1]:
+                    cur = op["p"][0]
+                    cst = None
+                    for _ in range(6):
+                        cst = _single_closure_def(nf_raw, cur)
+                        if cst is not None:
+                            break
+                        defs = [s2 for b2 in nf_raw["blocks"] for s2 in b2["stmts"] if s2["k"] == "assign" and s2["lhs"] == [cur, []]]
+                        if len(defs) != 1 or any(b2["term"]["k"] == "call" and b2["term"].get("dest") == [cur, []] for b2 in nf_raw["blocks"]):
+                            break
+                        rv2 = defs[0]["rv"]
+                        if rv2["k"] == "use" and rv2["op"].get("k") in ("move", "copy") and not rv2["op"]["p"][1]:
+                            cur = rv2["op"]["p"][0]
+                        elif rv2["k"] == "use" and rv2["op"].get("k") == "const" and rv2["op"].get("fn"):
+                            ups[k] = ("fn", rv2["op"])          # a function item passed as the callable
+                            break
+                        else:
+                            break
+                    if cst is not None:
+                        c = originals.get(cst["rv"]["def"])
+                        if c is not None and c.kind == "closure":
+                            ups[k] = c
+            if not ups:
+                continue
+            clone = copy.deepcopy(q.raw)
+            if not desugar_closure_calls(clone, originals, stats, None, upvar_closures=ups):
+                continue
+            counter += 1
+            cid = "%s::{%s of %s#%d}" % (owner_id, "async block" if q.kind == "coroutine" else "closure", q.id.split("::")[-2] if q.id.endswith("}") else q.id.split("::")[-1], counter)
+            clone["id"] = cid
+            clone["parent"] = owner_id
+            new_fns.append((cid, clone, q))
+            st["rv"]["def"] = cid
+            changed = True
+    return changed
